@@ -1484,6 +1484,38 @@ func (k *c19) mapValueProvenance(f *ssa.Function, v ssa.Value, T types.Type, dep
 		}
 		return ""
 	}
+	// what an unexported helper hands back on its success exits
+	{
+		var cl *ssa.Call
+		idx := 0
+		switch x := v.(type) {
+		case *ssa.Call:
+			cl = x
+		case *ssa.Extract:
+			cl, _ = x.Tuple.(*ssa.Call)
+			idx = x.Index
+		}
+		if cl != nil && depth > 0 {
+			if g := cl.Call.StaticCallee(); g != nil && inModule(g) && g.Blocks != nil && g.Object() != nil && !g.Object().Exported() {
+				why, n := "", 0
+				for _, r := range successReturns(g) {
+					if idx >= len(r.Results) {
+						return ""
+					}
+					w := k.mapValueProvenance(g, returnedValue(r, idx), T, depth-1)
+					if w == "" {
+						return ""
+					}
+					why = w
+					n++
+				}
+				if n > 0 {
+					return fmt.Sprintf("result of the unexported %s, on each of its %d success exit(s): %s", short(g.String()), n, why)
+				}
+				return ""
+			}
+		}
+	}
 	var lk *ssa.Lookup
 	switch x := v.(type) {
 	case *ssa.Lookup:
